@@ -3,25 +3,13 @@
 \* C18 (RDF/XML): the emitted document must parse, and its parse must be ISOMORPHIC (brute force over blank-node
 \* bijections, Iso.tla) to the input restricted to what the format can express: every quad present exactly once with the
 \* same IRIs, lexical forms, datatypes, language tags and graph names, blank nodes renamed consistently.
-EXTENDS Iso, Json, IOUtils, SequencesExt
+EXTENDS Iso, XmlSer, Json, IOUtils, SequencesExt
 Rec == ndJsonDeserialize(IOEnv.TRACE)
 VARIABLE l
 SetOfSeq(s) == {s[i] : i \in 1..Len(s)}
 \* ---- what each format can express ----
 JsonLdExpressible(q) == q[1].k \in {"iri", "bnode"} /\ q[2].k = "iri" /\ q[3].k \in {"iri", "bnode", "lit"} /\ q[4].k \in {"dg", "iri", "bnode"}
 \* XML NCName (ASCII letters, digits, '-', '.', '_' and everything >= 0xC0 as name characters; must not start with digit, '-', '.')
-\* XML 1.0 (5th ed.) productions [4] NameStartChar, [4a] NameChar (without ':': Namespaces in XML, NCName)
-NameStart(c) == \/ (c >= 65 /\ c <= 90) \/ c = 95 \/ (c >= 97 /\ c <= 122) \/ (c >= 192 /\ c <= 214) \/ (c >= 216 /\ c <= 246) \/ (c >= 248 /\ c <= 767)
-                \/ (c >= 880 /\ c <= 893) \/ (c >= 895 /\ c <= 8191) \/ c \in {8204, 8205} \/ (c >= 8304 /\ c <= 8591) \/ (c >= 11264 /\ c <= 12271)
-                \/ (c >= 12289 /\ c <= 55295) \/ (c >= 63744 /\ c <= 64975) \/ (c >= 65008 /\ c <= 65533) \/ (c >= 65536 /\ c <= 983039)
-NameChar(c) == NameStart(c) \/ c \in {45, 46, 183, 8255, 8256} \/ (c >= 48 /\ c <= 57) \/ (c >= 768 /\ c <= 879)
-IsNcName(v) == Len(v) > 0 /\ NameStart(v[1]) /\ \A i \in 2..Len(v) : NameChar(v[i])
-IsQName(v) == IsNcName(v) \/ \E i \in 2..(Len(v) - 1) : v[i] = 58 /\ IsNcName(SubSeq(v, 1, i - 1)) /\ IsNcName(SubSeq(v, i + 1, Len(v)))
-HasNcNameSuffix(v) == \E i \in 2..Len(v) : IsNcName(SubSeq(v, i, Len(v)))
-RdfNsCp == <<104, 116, 116, 112, 58, 47, 47, 119, 119, 119, 46, 119, 51, 46, 111, 114, 103, 47, 49, 57, 57, 57, 47, 48, 50, 47, 50, 50, 45, 114, 100, 102, 45, 115, 121, 110, 116, 97, 120, 45, 110, 115, 35>>
-\* RDF/XML syntax 5.1: names that can not be property elements (coreSyntaxTerms, rdf:Description, oldTerms), and rdf:li which is read as rdf:_n
-ReservedLocal == {<<82, 68, 70>>, <<73, 68>>, <<97, 98, 111, 117, 116>>, <<112, 97, 114, 115, 101, 84, 121, 112, 101>>, <<114, 101, 115, 111, 117, 114, 99, 101>>, <<110, 111, 100, 101, 73, 68>>, <<100, 97, 116, 97, 116, 121, 112, 101>>, <<68, 101, 115, 99, 114, 105, 112, 116, 105, 111, 110>>, <<97, 98, 111, 117, 116, 69, 97, 99, 104>>, <<97, 98, 111, 117, 116, 69, 97, 99, 104, 80, 114, 101, 102, 105, 120>>, <<98, 97, 103, 73, 68>>, <<108, 105>>}
-Reserved(v) == \E r \in ReservedLocal : v = RdfNsCp \o r
 XmlExpressible(q) == q[1].k \in {"iri", "bnode"} /\ q[2].k = "iri" /\ HasNcNameSuffix(q[2].v) /\ ~Reserved(q[2].v) /\ q[3].k \in {"iri", "bnode", "lit"} /\ q[4].k = "dg"
 \* XML 1.0 Char
 XmlChar(c) == c \in {9, 10, 13} \/ (c >= 32 /\ c <= 55295) \/ (c >= 57344 /\ c <= 65533) \/ c >= 65536
@@ -105,7 +93,12 @@ Judge(e) ==
            allOk == \A q \in SetOfSeq(e["in"]) : XmlExpressible(q) /\ TextLegal(q)
            Dlib == {LibWs(q) : q \in D}
            J(o) == LET v == JudgeOut([serok |-> TRUE], o.out, D)
+                       \* the property elements are the specified split of a predicate of the graph (XmlSer.tla!SplitIri)
+                       splitOk == \A i \in 1..Len(o.props) : LET iri == o.props[i].ns \o o.props[i].name IN
+                                     /\ SplitIri(iri) = [ns |-> o.props[i].ns, local |-> o.props[i].name]
+                                     /\ \E q \in D : q[2].v = iri
                    IN IF ~WellFormedDoc(o) THEN "document-not-well-formed"
+                      ELSE IF ~splitOk THEN "property-element-is-not-the-specified-split"
                       ELSE IF v = "ok" THEN v
                       ELSE IF o.out.ok /\ Dlib # D /\ JudgeOut([serok |-> TRUE], [o.out EXCEPT !.quads = SetToSeq(SetOfSeq(o.out.quads))], Dlib) = "ok"
                            /\ Len(o.out.quads) = Cardinality(D) THEN "lib-deviation:whitespace-only-literal-read-as-empty"
